@@ -2390,6 +2390,136 @@ contract(
 )
 
 
+# ===================================================================== C17 (CSV): export then import keeps the values
+CSV_POOLS = {
+    "ints": [0, 1, -7, 42, 1000000],
+    "quarters": [0.5, -2.25, 3.75, 10.0],
+    "words": ["a", "b c", "Hello", "été", "日本", "x_y"],
+    "tricky": ["d,e", 'say "hi"', "a;b", "tab\there", "it's", "1 apple"],
+    "holes": [None, 1, "w", None],
+}
+
+
+def _csv_norm(v):
+    """what a CSV cell can carry: numbers by value, text stripped, nothing = ''"""
+    from decimal import Decimal
+    if v is None:
+        return ""
+    if isinstance(v, bool):
+        return v
+    if isinstance(v, (int, float, Decimal)):
+        return Decimal(str(v)).normalize()
+    if isinstance(v, str):
+        return v.strip()
+    return v
+
+
+def _csv_norm_matrix(rows):
+    out = []
+    for r in rows:
+        r = [_csv_norm(v) for v in r]
+        while r and r[-1] == "":
+            r.pop()
+        out.append(r)
+    return out
+
+
+def _gen_csv(con, sigcase, count, seed):
+    _new_pass(con)
+    rnd = random.Random(seed)
+    thorough = count > 200
+    for pool in CSV_POOLS:
+        for W in (2, 3):
+            for H in (1, 2, 3):
+                for k in range(6 if thorough else 2):
+                    vals = CSV_POOLS[pool] if pool != "mixed" else None
+                    rows = [[rnd.choice(vals) for _ in range(W)] for _ in range(H)]
+                    for mode in ("explicit", "sniffed"):
+                        yield {"rows": rows, "mode": mode, "pool": pool}
+    allv = [v for p in ("ints", "quarters", "words", "tricky") for v in CSV_POOLS[p]] + [None]
+    for k in range(60 if thorough else 12):
+        W, H = rnd.randint(2, 4), rnd.randint(1, 4)
+        rows = [[rnd.choice(allv) for _ in range(W)] for _ in range(H)]
+        for mode in ("explicit", "sniffed"):
+            yield {"rows": rows, "mode": mode, "pool": "mixed"}
+
+
+@_guarded
+def _call_csv(con, fn, argvals, labels):
+    import csv
+    from io import StringIO
+    from odfdo import Table
+    from odfdo.table import import_from_csv
+    res = NativeResult()
+    res.checked = 1
+    rows, mode = argvals["rows"], argvals["mode"]
+    exp = _csv_norm_matrix(rows)
+    if not any(exp):
+        res.in_domain = False          # an all-empty table has no CSV content to sniff
+        return res
+    t = Table("t")
+    t.set_values(rows)
+    text = t.to_csv()
+    # the text itself, read by the csv module with the dialect it was written in
+    ind = _csv_norm_matrix([[c for c in line] for line in csv.reader(StringIO(text, newline=""), dialect="excel")])
+    want_text = [[str(v) if not isinstance(v, str) else v for v in r] for r in exp]
+    got_text = [[c for c in r] for r in ind]
+    from decimal import Decimal
+
+    def same_cell(a, b):
+        if isinstance(a, Decimal):
+            try:
+                return Decimal(b).normalize() == a
+            except Exception:  # noqa
+                return False
+        return str(a) == b
+    if len(got_text) != len(exp) or any(len(a) != len(b) or not all(same_cell(x, y) for x, y in zip(a, b))
+                                        for a, b in zip(exp, got_text)):
+        _report(res, "ensures:csv-export", f"to_csv of {rows!r} reads (csv module, excel dialect) as {got_text!r}")
+    kw = dict(delimiter=",", quotechar='"') if mode == "explicit" else {}
+    if mode == "sniffed":
+        # input class of the known finding: the dialect guessed by csv.Sniffer is not the one the text was written in
+        try:
+            guessed = csv.Sniffer().sniff("".join(text.splitlines(True)[:100])).delimiter
+        except csv.Error as e:
+            guessed = f"<{e}>"
+        if guessed != ",":
+            _report(res, "ensures:csv-sniffed-delimiter", f"to_csv of {rows!r} is {text!r}; csv.Sniffer guesses the delimiter "
+                    f"{guessed!r}, so import_from_csv does not read the table back")
+            return res
+    try:
+        back = import_from_csv(StringIO(text), "t2", **kw)
+    except csv.Error as e:
+        if mode == "explicit":
+            res.in_domain = False      # the sniffer refused the sample before the explicit dialect could apply
+            res.outcome = f"sniffer: {e}"
+            return res
+        _report(res, "ensures:csv-roundtrip-sniffed", f"import_from_csv(to_csv of {rows!r}) raised {e!r}")
+        return res
+    got = _csv_norm_matrix(back.get_values())
+    res.outcome = repr(got)[:200]
+    if got != exp:
+        _report(res, "ensures:csv-roundtrip" if mode == "explicit" else "ensures:csv-roundtrip-sniffed",
+                f"{rows!r} -> {text!r} -> {back.get_values()!r}")
+    return res
+
+
+contract(
+    "odfdo.table:Table.to_csv -> import_from_csv",
+    sig=dict(rows=Opaque(list), mode=Str),
+    ensures=[Clause(lab, {"C17"}, lambda a, r, p: True)
+             for lab in ("csv-export", "csv-roundtrip", "csv-roundtrip-sniffed", "csv-sniffed-delimiter", "no-crash")],
+    gen=_gen_csv, call_native=_call_csv,
+    bounded=dict(
+        scope="tables 2-4 columns x 1-4 rows over pools {ints, quarter floats, words (ASCII, accented, CJK), text with comma / "
+              "double quote / semicolon / tab / apostrophe / leading digit, holes (None)} and mixtures; values compared as CSV "
+              "can carry them (numbers by value, text stripped, None = empty, trailing empties dropped); modes: import with "
+              "delimiter and quote character given, and import with the sniffed dialect; the exported text is also read "
+              "with the csv module alone",
+        reason="csv writer / reader / Sniffer are outside the executor; the sniffed mode depends on a heuristic"),
+)
+
+
 # ===================================================================== genuine defects of the pinned tree
 # One entry per root cause.  `clause` is the primary failing label, `clauses` lists (fnmatch patterns) every label
 # of this module that the defect accounts for on the unchanged tree, `history` the smallest failing history found,
